@@ -261,8 +261,11 @@ fn check_case(iters: &[Vec<Vec<Sym>>], order: &[usize], coalesce: bool, oracle: 
 pub fn scenarios(prop: &str, oracle: Oracle, quick: bool) -> Vec<Scenario> {
     let mut out = vec![];
     // (replicas, tmax, len per replica) for the first iteration; second iteration: a fixed pair
-    let cfgs: Vec<(usize, i64, usize, bool)> = if quick {
+    let cfgs: Vec<(usize, i64, usize, bool)> = if quick && oracle == Oracle::Progress {
+        // (the progress oracle is the slower one)
         vec![(2, 3, 2, false), (2, 2, 2, true), (3, 2, 1, false)]
+    } else if quick {
+        vec![(2, 3, 2, false), (2, 2, 3, false), (2, 2, 2, true), (3, 2, 1, false)]
     } else {
         vec![(2, 3, 3, false), (2, 4, 2, false), (2, 2, 3, true), (3, 2, 2, false), (3, 3, 1, true)]
     };
